@@ -12,6 +12,19 @@ def handle : List Str → Str
       let f : File := ⟨[], [], unhex pkg, unhex header, set, unhex vars, unhex consts, unhex body⟩
       hex (assemble f) ++ [' '] ++ hexList (formattedBlock set)
     else str "bad-op"
+  | [op, header, pkg, imports, vars, consts, body, fmtFails] =>
+    if op = str "afile" then
+      -- `AssembleFile` into an existing directory; whether Format fails on the text is a fact about the
+      -- external formatter carried by the line
+      let imps := unhexList imports
+      let f : File := ⟨"zz.go".toList, [], unhex pkg, unhex header, imps, unhex vars, unhex consts, unhex body⟩
+      let fmt : Str → Option Str := fun s => if fmtFails = ['1'] then none else some s
+      let d0 : Disk := ⟨["d".toList], []⟩
+      let r := assembleFile fmt d0 f "d/zz.go".toList
+      if fmtFails = ['1'] then
+        str "err=" ++ (if r.2 then ['0'] else ['1']) ++ str " content=" ++ hex ((r.1.readFile "d/zz.go".toList).getD [])
+      else str "err=" ++ (if r.2 then ['0'] else ['1'])
+    else str "bad-op"
   | _ => str "bad-op"
 
 end Gengo.Driver.Assemble
